@@ -1416,9 +1416,26 @@ void psPkcs5Pbkdf2(unsigned char *password, uint32 pLen,
     uint32 blkno;
     unsigned long stored, left, i;
     unsigned char buf[2][SHA1_HASH_SIZE];
+    unsigned char hashedPass[SHA1_HASH_SIZE];
     psHmacSha1_t hmac;
 
     psAssert(password && salt && key && kLen);
+
+    /* HMAC keys longer than the block size of the hash are replaced by
+       their hash (RFC 2104); psHmacSha1Init takes keys up to 64 bytes. */
+    if (pLen > 64)
+    {
+        psSha1_t md;
+
+        if (psSha1Init(&md) < 0)
+        {
+            return;
+        }
+        psSha1Update(&md, password, pLen);
+        psSha1Final(&md, hashedPass);
+        password = hashedPass;
+        pLen = SHA1_HASH_SIZE;
+    }
 
     left   = kLen;
     blkno  = 1;
@@ -1459,6 +1476,7 @@ void psPkcs5Pbkdf2(unsigned char *password, uint32 pLen,
     }
 
     memset_s(buf, SHA1_HASH_SIZE * 2, 0x0, SHA1_HASH_SIZE * 2);
+    memset_s(hashedPass, SHA1_HASH_SIZE, 0x0, SHA1_HASH_SIZE);
     memset_s(&hmac, sizeof(psHmacSha1_t), 0x0, sizeof(psHmacSha1_t));
 }
 # endif /* USE_HMAC && USE_SHA1 */
